@@ -24,3 +24,20 @@ Definition c19_next (c : list (string * rhs) * list msg) : list msg :=
   | None => []
   | Some r => nodup String.string_dec (fst (forecast msg macc r (snd c)))
   end.
+
+(* comparison modulo a renaming of messages (used for the recorded finding: the forecaster's result merges one sender's options of one message
+   type over different recipients): the model's continuation set and the offered set are both renamed through [tab] before they are compared *)
+Definition rename (tab : list (msg * msg)) (a : msg) : msg :=
+  match assoc String.eqb a tab with Some b => b | None => a end.
+
+Definition c19_eval_proj (c : list (string * rhs) * list msg * list msg * bool * list (msg * msg)) : nat :=
+  let '(rules, h, opts, complete, tab) := c in
+  match inline 60 rules (Ref "<start>"%string) with
+  | None => 5
+  | Some r =>
+      let '(next, comp) := forecast msg macc r h in
+      let next' := map (rename tab) next in
+      let opts' := map (rename tab) opts in
+      if negb (subset next' opts' && subset opts' next') then 0
+      else if negb (Bool.eqb comp complete) then 2 else 1
+  end.
